@@ -19,4 +19,13 @@ theorem full_after_removal (n m : Node) (k : Nat) (h : coverage n = .ok (k, m)) 
     coverage m = .ok (0, m) :=
   coverage_mod_full n m k h
 
+
+/-- The handler tables of the live `Coverage` class (REGENERATED on every run) are the ones the
+    model `covN` was written against: a handler added to or lost from the class breaks this. -/
+theorem coverage_dispatch_as_modelled :
+    Gen.coverageOwn = ["Assignment", "BinaryOp", "Case", "Cast", "Compound", "Decl", "DeclList", "Default", "DoWhile", "ExprList", "For", "FuncCall", "FuncDef", "If", "Label", "ParamList", "Return", "UnaryOp", "While"] ∧
+    Gen.coveragePass = ["ArrayDecl", "ArrayRef", "Break", "Constant", "Continue", "EmptyStatement", "Goto", "ID", "Switch", "TernaryOp", "TypeDecl"] ∧
+    Gen.coverageDefault = ["Alignas", "CompoundLiteral", "EllipsisParam", "Enum", "Enumerator", "EnumeratorList", "FileAST", "FuncDecl", "IdentifierType", "InitList", "NamedInitializer", "Pragma", "PtrDecl", "StaticAssert", "Struct", "StructRef", "Typedef", "Typename", "Union"] ∧
+    Gen.uOps = ["!", "+", "++", "-", "--", "p++", "p--", "sizeof"] ∧ Gen.binOps = ["*", "+", "-"] := by decide
+
 end Mwp.Props.C07
